@@ -57,6 +57,11 @@ class Base:
             return impl_obs[:200]
         return None
 
+    def predicate2(self, case, impl_obs, model_obs):
+        """optional: property predicate that compares the implementation's observation with extra
+        fields printed only by the model side (an executable specification); None = holds"""
+        return None
+
     def nontrivial(self, case, impl_obs):
         return True
 
